@@ -246,31 +246,33 @@ def build_cases(ctx):
     cases = []
     scripts = single_scripts()
     full = not ctx.quick or ctx.widened
+    # 1. the crash-point matrix, exhaustive in both tiers
+    for kind in KINDS:
+        for res in all_res():
+            for s in scripts:
+                cases.append(("matrix", pick_how(rng, mk(kind, res, **s))))
+    ctx.exhaustive_parts.append(
+        f"full matrix: 3 command kinds x 2^4 resource combinations x ({len(scripts)} scripts = all-ok + 8 exit kinds x 4 "
+        "lifecycle points + pre / post / both hooks failing)")
+    # 2. every concrete exception class / way of cancelling / non-int exit code, everything switched on
+    for kind in KINDS:
+        for p in (POINTS if full else ["main"]):
+            for k, variants in HOW.items():
+                for v in variants:
+                    cases.append(("exception-classes", mk(kind, "1111", how={k: v}, **{p: k})))
+    ctx.exhaustive_parts.append("every concrete exception class / cancellation mechanism (real SIGINT, Task.cancel) / non-int "
+                                "sys.exit argument x 3 kinds" + (" x 4 lifecycle points" if full else " at main"))
+    # 3. two faults: main x teardown (before / after super().teardown())
     if full:
         for kind in KINDS:
-            for res in all_res():
-                for s in scripts:
-                    cases.append(("matrix", pick_how(rng, mk(kind, res, **s))))
-        ctx.exhaustive_parts.append(
-            f"full matrix: 3 command kinds x 2^4 resource combinations x ({len(scripts)} scripts = all-ok + 8 exit kinds x 4 "
-            "lifecycle points + pre / post / both hooks failing)")
-    else:
-        # covering subset: every script x every kind with everything on, everything off, and 3 seeded combinations;
-        # every resource combination x every kind for one script per exit kind
-        combos = all_res()
-        for kind in KINDS:
-            for s in scripts:
-                for res in ["1111", "0000"] + rng.sample(combos[1:-1], 3):
-                    cases.append(("matrix-subset", pick_how(rng, mk(kind, res, **s))))
-            for res in combos:
-                for f in FAULTS:
-                    cases.append(("matrix-subset", pick_how(rng, mk(kind, res, **{rng.choice(POINTS): f}))))
-        ctx.exhaustive_parts.append(
-            f"covering subset: every script ({len(scripts)}) x 3 kinds x {{all on, all off, 3 seeded}} resources; every resource "
-            "combination x 3 kinds x every exit kind at a seeded lifecycle point")
-    # two and more faults: main fault + teardown fault(s), hook failure + fault, everything at once
-    n_multi = ctx.pick(150, 900)
-    for _ in range(n_multi):
+            for a in FAULTS:
+                for b in FAULTS:
+                    for p in ("tdPre", "tdPost"):
+                        for res in ("1111", rng.choice(all_res())):
+                            cases.append(("fault-pairs", pick_how(rng, mk(kind, res, main=a, **{p: b}))))
+        ctx.exhaustive_parts.append("all pairs (fault in main, fault in teardown before / after super().teardown()) x 3 kinds")
+    # 4. seeded: two to four faults, hook failures mixed in, arbitrary exit codes
+    for _ in range(ctx.pick(200, 1500)):
         kind = rng.choice(KINDS)
         res = rng.choice(["1111", "1111", rng.choice(all_res())])
         ev = {}
@@ -281,8 +283,8 @@ def build_cases(ctx):
             ev[p] = f
         c = mk(kind, res, pre=rng.choice(["ok", "ok", "fail"]), post=rng.choice(["ok", "ok", "fail"]), **ev)
         cases.append(("multi-fault", pick_how(rng, c)))
-    # the UDS scanner with its initial ping (wait_for_ecu: 0.5 s of real time each)
-    for _ in range(ctx.pick(4, 24)):
+    # 5. the UDS scanner with its initial ping (wait_for_ecu: 0.5 s of real time each)
+    for _ in range(ctx.pick(6, 32)):
         c = mk("uds", rng.choice(["1111", "0110", "0010"]), **{rng.choice(POINTS): rng.choice(FAULTS)})
         c = pick_how(rng, c)
         c.setdefault("how", {})["ping"] = True
